@@ -23,7 +23,9 @@ EXPLANATION = (
     "and last 8 bytes of (key || inonce) encrypted with ChaCha20 under the old key and nonce; the counter "
     "reset follows. INIT: init_push and init_pull derive the state identically from (header, key): "
     "k = HChaCha20(header[..16], key), counter = 1, inonce = header[16..24]. PADS: both directions absorb "
-    "pad16(|AD|) and the ((0x10 - 64 + mlen) & 0xf) body pad.")
+    "pad16(|AD|) and the ((0x10 - 64 + mlen) & 0xf) body pad. TAG-OUT: every Ok exit of the classic pull lies behind a "
+    "store to the tag output whose value derives from the ciphertext; the object API converts between the tag byte "
+    "and Tag with from_bits_retain / bits only.")
 NOT_DECIDED = ("equality of ciphertexts and of both stream states with libsodium for every history; behaviour at the "
                "32-bit counter wrap as values; that out-of-order ciphertexts are rejected (follows from MAC correctness, value-level).")
 
@@ -127,6 +129,45 @@ def run(ctx, rep):
                         macroots.add(cm.view_info(f, l)[0])
             r = cm.view_info(f, list(operand_locals(c.args[xor_src(c)]))[0])[0]
             rep.ob("EVOLVE", "%s|xor operand is the computed MAC" % f.name[-4:], r in macroots, "source operand root `%s`" % f.local_name(r), loc=c.loc())
+    # ---- TAG-OUT ("recovers exactly the pushed messages and tags ... any tag byte") --------------------
+    # classic pull: every Ok exit lies behind a store to the tag output whose value derives from the ciphertext
+    fp = V[pull.key]
+    tparams = [p_ for p_ in cm.params_of(fp) if fp.locals[p_]["t"].replace("'_ ", "") == "&mut u8"]
+    cparams = [p_ for p_ in cm.params_of(fp) if fp.locals[p_]["t"].replace("'_ ", "") == "&[u8]"]
+    if len(tparams) != 1 or not cparams:
+        rep.violation("ANCHOR", "pull|tag output", "cannot tell the tag output parameter of the public pull (fail closed)", loc=pull.loc())
+    else:
+        tp = tparams[0]
+        stores = [(b_, s_) for b_, i_, s_ in fp.assigns() if s_["place"]["l"] == tp and s_["place"]["p"] == ["deref"] and not fp.blocks[b_]["cleanup"]]
+        from ..core import rvalue_locals
+        for b, kind, e in result_kind_of_ret(fp):
+            if kind != "ok" or b not in fp.reachable(0):
+                continue
+            rep.ob("TAG-OUT", "pull|tag written on every Ok path", bool(stores) and must_pass(fp, [b_ for b_, _ in stores], b),
+                   "Ok exit at %s %s a store to the tag output (%d store site(s))" % (fp.loc(b), "lies behind" if stores and must_pass(fp, [b_ for b_, _ in stores], b) else "is reachable without", len(stores)), loc=fp.loc(b))
+        for b_, s_ in stores:
+            back = fp.backward_slice(rvalue_locals(s_["rv"]))
+            rep.ob("TAG-OUT", "pull|tag value comes from the ciphertext", any(c_ in back for c_ in cparams),
+                   "the value stored to the tag output %s the ciphertext parameter" % ("derives from" if any(c_ in back for c_ in cparams) else "does NOT derive from"), loc=fp.loc(b_))
+    # object API: the byte <-> Tag conversions keep all eight bits (`from_bits_retain` / `bits`); a truncating or
+    # checked conversion loses application-defined tag bits that the classic API and libsodium carry
+    n_conv = 0
+    for m_ in ("pull", "push"):
+        for g0 in cm.find_method(prog, "dryocstream::DryocStream", m_):
+            g = inline(prog, g0)
+            for c in g.calls():
+                if g.blocks[c.bb]["cleanup"] or not c.args:
+                    continue
+                dty = g.locals[c.dest["l"]]["t"]
+                aty = g.locals[c.args[0]["l"]]["t"].replace("&", "").strip() if c.args[0].get("k") in ("copy", "move") else ""
+                if dty == "dryocstream::Tag" and (aty == "u8" or c.args[0].get("k") == "const"):
+                    n_conv += 1
+                    rep.ob("TAG-OUT", "DryocStream::%s|u8 -> Tag keeps all bits" % m_, c.name == "from_bits_retain",
+                           "the tag byte becomes a Tag through `%s`%s" % (c.name, "" if c.name == "from_bits_retain" else " (only `from_bits_retain` keeps bits outside the named flags)"), loc=c.loc())
+                elif dty == "u8" and aty == "dryocstream::Tag":
+                    n_conv += 1
+                    rep.ob("TAG-OUT", "DryocStream::%s|Tag -> u8 keeps all bits" % m_, c.name == "bits", "the Tag becomes the tag byte through `%s`" % c.name, loc=c.loc())
+    rep.floor("tag conversions in the object API", n_conv, 2)
     # ---- LOCKSTEP -----------------------------------------------------------------------------
     def post_mac(f):
         st = state_param(f)
